@@ -3,6 +3,7 @@ package main
 import (
 	"crypto/sha256"
 	"fmt"
+	"github.com/btcsuite/btcd/chainhash/v2"
 	"time"
 
 	"github.com/btcsuite/btcd/address/v2"
@@ -219,15 +220,43 @@ func buildWorld(name string) *world {
 	if lateSegwit {
 		p.Deployments[chaincfg.DeploymentSegwit].AlwaysActiveHeight = segwitLateHeight
 	}
+	// "mindiff": a minimum-difficulty network (the testnet 20-minute rule) whose
+	// genesis and first blocks carry a target 256 times harder than the limit;
+	// the tip is a minimum-difficulty block stamped 19 minutes before the lab's
+	// clock.  A template generated now must carry the hard bits; one whose time
+	// is then moved 90 seconds on (20.5 minutes after the tip) must carry the
+	// limit: UpdateBlockTime has to re-derive the bits for the new time.
+	const hardBits = 0x1f7fffff
+	var bits uint32
+	if name == "mindiff" {
+		p.PoWNoRetargeting = false
+		p.ReduceMinDifficulty = true
+		p.MinDiffReductionTime = 20 * time.Minute
+		gb := *p.GenesisBlock
+		gb.Header.Bits = hardBits
+		gb.Header.Timestamp = lab.Now.Add(-30*24*time.Hour - time.Minute)
+		lab.Solve(&gb.Header)
+		gh := chainhash.Hash(lab.HeaderHash(&gb.Header))
+		p.GenesisBlock, p.GenesisHash = &gb, &gh
+		bits = hardBits
+	}
 	g := lab.Genesis(p)
 	parent := g
 	for h := 1; h <= 3; h++ {
-		b := lab.Build(p, parent, lab.BOpt{Name: fmt.Sprintf("F%d", h), Tag: uint32(h), CoinbaseOuts: fundingOuts()})
+		b := lab.Build(p, parent, lab.BOpt{Name: fmt.Sprintf("F%d", h), Tag: uint32(h), CoinbaseOuts: fundingOuts(), Bits: bits})
 		w.F[h] = b
 		w.Deliver = append(w.Deliver, b)
 		parent = b
 	}
 	switch name {
+	case "mindiff":
+		for i := 0; i < 2; i++ {
+			b := lab.Build(p, parent, lab.BOpt{Name: fmt.Sprintf("H%d", parent.Height+1), Tag: 4000 + uint32(parent.Height+1), Bits: hardBits})
+			w.Deliver = append(w.Deliver, b)
+			parent = b
+		}
+		b := lab.Build(p, parent, lab.BOpt{Name: "M6", Tag: 4006, Time: lab.Now.Add(-19 * time.Minute)})
+		w.Deliver = append(w.Deliver, b)
 	case "plain", "segwit-last-inactive":
 		w.Deliver = append(w.Deliver, empties(p, parent, 3, 1000, "E")...) // tip 6
 	case "segwit-first-active":
